@@ -307,6 +307,7 @@ class C13(Sim):
             helper.border_e = sorted(ref.eid[k] for k in bk)
             helper.interior_e = sorted(set(range(len(ref.edges))) - set(helper.border_e))
             names = ["f2c", "c2f", "c2c", "v2c", "c2e", "e2c", "e2f", "in_cell_face_index", "common_face", "other_face_side", "boundary_faces",
+                     "interior_faces", "boundary_edges", "interior_edges", "boundary_vertices", "interior_vertices",
                      "is_face_on_border", "is_edge_on_border", "is_vertex_on_border", "f2e", "edge_id", "face_id"]
             Qt, judge = c03.Q, lambda q, mode, got, exp: c03.judge(mode, got, exp, True)
         else:
